@@ -202,16 +202,26 @@ type cycleResult struct {
 // equal F1, Write(F1) == Write(F2)), the information the property lists comes
 // back unchanged (lossless), and a font that is already in normal form
 // (canonical, see canonical.go) comes back deep-equal with identical bytes.
-func oracleValue(f *sfnt.Font) (*cycleResult, []*failure) {
+//
+// Write must not touch its argument: the value (deep comparison with a copy
+// taken before the call), the bytes of its slices and all memory behind them
+// up to their capacity (alias.go) are the same after the first write and after
+// the last; and what comes back is compared with the value F had BEFORE the
+// first write (a Write that damaged F and wrote the damaged table would
+// otherwise agree with itself).  extra: further memory regions of the caller
+// that must stay untouched (the arena the font's slices live in).
+func oracleValue(f *sfnt.Font, extra ...[]byte) (*cycleResult, []*failure) {
 	var fails []*failure
 	res := &cycleResult{}
+	g := watch(f, extra...)
 	w0, err := writeFont(f)
+	fails = append(fails, g.check("first Write(F)")...)
 	if err != nil {
 		kind := "error"
 		if isPanic(err) {
 			kind = "panic"
 		}
-		return res, []*failure{{"write-" + kind + "-on-value", clip(err.Error(), 300)}}
+		return res, append(fails, &failure{"write-" + kind + "-on-value", clip(err.Error(), 300)})
 	}
 	res.W0 = w0
 	for i := 0; i < repeatWrites(f)-1; i++ {
@@ -221,6 +231,11 @@ func oracleValue(f *sfnt.Font) (*cycleResult, []*failure) {
 			break
 		}
 	}
+	if len(fails) == 0 {
+		fails = append(fails, g.check("repeated Write(F)")...)
+	}
+	// from here on F means the value before the first write
+	f = g.reference()
 	f1, err := readFont(w0)
 	if err != nil {
 		kind := "rejected"
@@ -263,13 +278,16 @@ func repeatWrites(f *sfnt.Font) int {
 // exactly, and the bytes must be stable.
 func fixedPoint(f1 *sfnt.Font, res *cycleResult) []*failure {
 	var fails []*failure
+	// F1 comes from Read: its slices have whatever spare capacity Read left
+	g := watch(f1)
 	w1, err := writeFont(f1)
+	fails = append(fails, g.check("Write(F1), F1 = Read(Write(F))")...)
 	if err != nil {
 		kind := "error"
 		if isPanic(err) {
 			kind = "panic"
 		}
-		return []*failure{{"write-" + kind + "-on-read-font", clip(err.Error(), 300)}}
+		return append(fails, &failure{"write-" + kind + "-on-read-font", clip(err.Error(), 300)})
 	}
 	res.W1 = w1
 	f2, err := readFont(w1)
@@ -278,7 +296,7 @@ func fixedPoint(f1 *sfnt.Font, res *cycleResult) []*failure {
 		if isPanic(err) {
 			kind = "panic"
 		}
-		return []*failure{{"reread-" + kind, clip(err.Error(), 300)}}
+		return append(fails, &failure{"reread-" + kind, clip(err.Error(), 300)})
 	}
 	res.F2 = f2
 	if d := deepDiff(f1, f2); d != "" {
@@ -322,13 +340,15 @@ func oracleBytes(b []byte) (f0 *sfnt.Font, res *cycleResult, fails []*failure) {
 		}
 		return nil, res, nil
 	}
+	g := watch(f0)
 	w0, err := writeFont(f0)
+	fails = append(fails, g.check("Write(Read(b))")...)
 	if err != nil {
 		kind := "error"
 		if isPanic(err) {
 			kind = "panic"
 		}
-		return f0, res, []*failure{{"write-" + kind + "-on-read-font", clip(err.Error(), 300)}}
+		return f0, res, append(fails, &failure{"write-" + kind + "-on-read-font", clip(err.Error(), 300)})
 	}
 	res.W0 = w0
 	f1, err := readFont(w0)
@@ -337,7 +357,7 @@ func oracleBytes(b []byte) (f0 *sfnt.Font, res *cycleResult, fails []*failure) {
 		if isPanic(err) {
 			kind = "panic"
 		}
-		return f0, res, []*failure{{"reread-" + kind, clip(err.Error(), 300)}}
+		return f0, res, append(fails, &failure{"reread-" + kind, clip(err.Error(), 300)})
 	}
 	res.F1 = f1
 	if d := deepDiff(f0, f1); d != "" {
@@ -417,7 +437,7 @@ func lossless(f, f1 *sfnt.Font) []*failure {
 				bad("Outlines.Names", "%s", clip(d, 300))
 			}
 		}
-		if d := valDiff(o.Tables, o1.Tables, true); d != "" {
+		if d := valDiff(nonEmptyTables(o.Tables), nonEmptyTables(o1.Tables), true); d != "" {
 			bad("Outlines.Tables", "%s", clip(d, 300))
 		}
 		if d := valDiff(o.Maxp, o1.Maxp, false); d != "" {
@@ -587,6 +607,18 @@ func lossless(f, f1 *sfnt.Font) []*failure {
 		}
 	}
 	return fails
+}
+
+// nonEmptyTables: a pass-through table of length 0 is "absent" to the library
+// (header.Info.Has); the normal form of a font has no such entries.
+func nonEmptyTables(m map[string][]byte) map[string][]byte {
+	out := map[string][]byte{}
+	for k, b := range m {
+		if len(b) > 0 {
+			out[k] = b
+		}
+	}
+	return out
 }
 
 // cffOnGrid reports whether all arguments of the glyph program are integers
